@@ -19,7 +19,7 @@ func checkC05(c *Ctx) {
 	c.Rule("C05/R2", "one splitter: Base and Parts take the trailing -N split from the same helper; with a '/' present Base is the text before the first '/', untouched; Parts is a partition of the name (each segment starts where the previous ended, the -N part starts where the rest ends)")
 	c.Rule("C05/R3", "the -N splitter splits only at a '-' that is followed by at least one byte, all of them digits")
 	c.Rule("C05/R7", "a plain key is the configured value whenever the key is configured: extractConfig returns nil only where ConfigIndex reported the key absent")
-	c.Rule("C05/R9", "a sub-name key is absent only when no part has it: every nil return of the lookup follows the loop over the parts")
+	c.Rule("C05/R9", "a sub-name key is absent only when no part has it: no nil return of a function that splits a name into its parts is guarded by a condition computed from the whole name (Name.Full)")
 	c.Rule("C05/R10", "the -N form is returned under no condition other than: this is /gomaxprocs, there is a last part, it begins with the dash")
 	c.Rule("C05/R8", ".name and .fullname are Name.Base() and Name.Full() as they come: extractName and extractFull return those calls' results")
 	c.Rule("C05/R6", "decomposition is a function of the name in hand (same rule as C08/R11): no extractor writes memory it captured")
